@@ -539,7 +539,7 @@ func drawC11(t *rapid.T) C11Case {
 func TestC11(t *testing.T) {
 	rec := obs.New("C11")
 	defer rec.Flush(true)
-	rec.SetExtra("rule", "rapid program classes with reference size and round numbers: small typed programs; blow-up (cross products, transitive closure over a chain up to 14); heavy joins (a 5-predicate body over a calibrated number of facts with no match, about 1.5 s in full) under 1 ms / 20 ms; ill-formed rules (unbound head variable with 1-4 matching bindings; expression error; a rule that mixes both, with expressions that pass on some bindings and raise division-by-zero / overflow errors on others, facts in drawn order); derivation ladders l0->l1->...->lk (k 3-7) with their rules in a drawn order; limit configurations drawn around the reference numbers (generous / fact limit below the fixpoint / iteration limit below the need / arbitrary); delivered through datalog.NewWorld, NewVerifier, Authorizer(root, opts...), AuthorizerFor(src, opts...), with the program in the authority block, the authorizer or a later block. Oracle: Run==nil implies facts == reference fixpoint and no limit exceeded; fixpoint larger than maxFacts / needing >= maxIterations+2 rounds implies the matching sentinel (errors.Is); heavy program under a tiny duration implies the timeout sentinel; a program clearly within all limits gets no limit error; Authorize fails with the sentinel through every entry point; after return, no goroutine with a datalog frame stays parked in a channel send while no datalog goroutine can run (3 equal samples). Non-trivial = a limit is exceeded, or an early-exit path is taken, or options travel through a token-level entry point; distinct by case.")
+	rec.SetExtra("rule", "rapid program classes with reference size and round numbers: small typed programs; blow-up (cross products, transitive closure over a chain up to 14); heavy joins (a 5-predicate body over a calibrated number of facts with no match, about 1.5 s in full) under 1 ms / 20 ms; ill-formed rules (unbound head variable with 1-4 matching bindings; expression error; a rule that mixes both, with expressions that pass on some bindings and raise division-by-zero / overflow errors on others, facts in drawn order); derivation ladders l0->l1->...->lk (k 3-7) with their rules in a drawn order; limit configurations drawn around the reference numbers (generous / fact limit below the fixpoint / iteration limit below the need / arbitrary); delivered through datalog.NewWorld, NewVerifier, Authorizer(root, opts...), AuthorizerFor(src, opts...), with the program in the authority block, the authorizer or a later block; in a third of the token-level cases the authorizer is used and Reset before the content is added (limits must survive Reset). Oracle: Run==nil implies facts == reference fixpoint and no limit exceeded; fixpoint larger than maxFacts / needing >= maxIterations+2 rounds implies the matching sentinel (errors.Is); heavy program under a tiny duration implies the timeout sentinel; a program clearly within all limits gets no limit error; Authorize fails with the sentinel through every entry point; after return, no goroutine with a datalog frame stays parked in a channel send while no datalog goroutine can run (3 equal samples). Non-trivial = a limit is exceeded, or an early-exit path is taken, or options travel through a token-level entry point; distinct by case.")
 	rec.SetExtra("assumptions", []string{"the exact boundary (==) of the limits is not asserted", "liveness ('never blocked forever') is decided through the safety proxy of a quiescent parked sender", "a single late return is inconclusive; three in a row are a violation"})
 	harness.RunWith(t, harness.Spec[C11Case]{ID: "C11", Draw: drawC11, Check: checkC11}, rec)
 }
